@@ -294,6 +294,7 @@ def oracle_c02(data, assertions=None):
     child list in order) equals the snapshot taken just before the call."""
     on = bool(data.get("asrt", 1)) if assertions is None else bool(assertions)
     msgs = []
+    k, op = -1, ["?"]
     try:
         with _Assertions(on), _Watchdog():
             w = World(data["n"])
@@ -309,7 +310,7 @@ def oracle_c02(data, assertions=None):
                         msgs.append(f"op#{k} {op_token(op)} raised but changed the store: {before} -> {w.snapshot()}")
                         break
     except Hang:
-        msgs.append(f"op#{k} {op_token(op)} does not terminate")
+        msgs.append(f"op#{k} {op_token(op) if k >= 0 else ''} does not terminate")
     return msgs
 
 
@@ -449,7 +450,6 @@ def oracle_history(data):
     if not data.get("asrt", 1):
         return []  # C11 is claimed for the default configuration; asrt=0 histories belong to C20
     msgs = []
-    k, op = -1, None
     try:
         with _Assertions(True), _Watchdog():
             msgs += _oracle_history_body(data)
@@ -460,28 +460,27 @@ def oracle_history(data):
 
 def _oracle_history_body(data):
     msgs = []
-    if True:
-        w = World(data["n"])
-        msgs += _wf_messages(w, "init")
-        for k, op in enumerate(data["ops"]):
-            before = [(p, list(c)) for p, c in w.snapshot()]
-            ok = w.apply(op)
-            tag = f"op#{k} {op_token(op)} ({'ok' if ok else 'rej'})"
-            msgs += _wf_messages(w, tag)
-            after = [(p, list(c)) for p, c in w.snapshot()]
-            must_rej, want = _expected_effect(w, op, before)
-            if not ok:
-                if after != before:
-                    msgs.append(f"{tag}: refused but the store changed {before} -> {after}")
-                if must_rej is False:
-                    msgs.append(f"{tag}: refused although nothing forbids it")
-            else:
-                if must_rej is True:
-                    msgs.append(f"{tag}: accepted although it must be refused (before {before})")
-                elif want is not None and [(p, list(c)) for p, c in want] != after:
-                    msgs.append(f"{tag}: effect differs: before {before} expected {want} got {after}")
-            if msgs:
-                break
+    w = World(data["n"])
+    msgs += _wf_messages(w, "init")
+    for k, op in enumerate(data["ops"]):
+        before = [(p, list(c)) for p, c in w.snapshot()]
+        ok = w.apply(op)
+        tag = f"op#{k} {op_token(op)} ({'ok' if ok else 'rej'})"
+        msgs += _wf_messages(w, tag)
+        after = [(p, list(c)) for p, c in w.snapshot()]
+        must_rej, want = _expected_effect(w, op, before)
+        if not ok:
+            if after != before:
+                msgs.append(f"{tag}: refused but the store changed {before} -> {after}")
+            if must_rej is False:
+                msgs.append(f"{tag}: refused although nothing forbids it")
+        else:
+            if must_rej is True:
+                msgs.append(f"{tag}: accepted although it must be refused (before {before})")
+            elif want is not None and [(p, list(c)) for p, c in want] != after:
+                msgs.append(f"{tag}: effect differs: before {before} expected {want} got {after}")
+        if msgs:
+            break
     return msgs
 
 
